@@ -154,3 +154,17 @@ Example C16_cfg_ok_mount_needed :
   /\ v_res (view_of_model cfg_same (w1 "") e0 (CMount (bs "a")) []) = ROk
   /\ C16.step_spec cfg_same (w1 "") (view_of_model cfg_same (w1 "") e0 (CMount (bs "a")) []) = false.
 Proof. vm_compute. repeat split. Qed.
+
+(* a hand edit (CEdit: not layercake) of a file inside the export tree changes a non-symlink
+   entry, trivially; outside the export tree it is covered by the theorem *)
+Example C16_edit_ok_needed :
+  cfg_ok ex_cfg = true /\ world_ok ex_cfg (w1 "") = true
+  /\ edit_ok ex_cfg (CEdit (bs "/b/export/index.html") (bs "zz")) = false
+  /\ v_res (v1 "" (CEdit (bs "/b/export/index.html") (bs "zz"))) = ROk
+  /\ C16.step_spec ex_cfg (w1 "") (v1 "" (CEdit (bs "/b/export/index.html") (bs "zz"))) = false.
+Proof. vm_compute. repeat split. Qed.
+Example C16_edit_outside_ok :
+  edit_ok ex_cfg (CEdit (bs "/b/layers/a/layerconfig") (bs "zz")) = true
+  /\ v_res (v1 "" (CEdit (bs "/b/layers/a/layerconfig") (bs "zz"))) = ROk
+  /\ C16.step_spec ex_cfg (w1 "") (v1 "" (CEdit (bs "/b/layers/a/layerconfig") (bs "zz"))) = true.
+Proof. vm_compute. repeat split. Qed.
